@@ -10,7 +10,12 @@ if [ ! -d "$wt" ]; then git -C /repo worktree add -q "$wt" HEAD || exit 2; fi
 cd "$wt" && git checkout -q -- . && git clean -fdq tests/unit/src/tests tests/integration/tests && git reset -q --hard "$(git -C /repo rev-parse HEAD)"
 mkdir -p tests/unit/target tests/integration/target
 mod="seed_${name}"
-if [ "$where" = "unit" ]; then
+if [[ "$where" == unit:* ]]; then
+  sub="${where#unit:}"
+  cp "$dir/demo.rs" "tests/unit/src/tests/${sub}/${mod}.rs"
+  grep -q "mod ${mod};" "tests/unit/src/tests/${sub}/mod.rs" || echo "mod ${mod};" >> "tests/unit/src/tests/${sub}/mod.rs"
+  pkg="sos-unit-tests"; extra=""
+elif [ "$where" = "unit" ]; then
   cp "$dir/demo.rs" "tests/unit/src/tests/${mod}.rs"
   grep -q "mod ${mod};" tests/unit/src/tests/mod.rs || echo "mod ${mod};" >> tests/unit/src/tests/mod.rs
   pkg="sos-unit-tests"; extra=""
